@@ -300,7 +300,8 @@ fn reduced_fractions(qmax: i64, pmax: i64) -> Vec<(i64, i64)> {
 }
 
 pub fn run(ctx: &Ctx) -> Finish {
-    let t = ctx.tier == Tier::Thorough;
+    // the full sweep takes ~6 s, so both tiers run it
+    let t = true;
     let ivs = intervals();
     assert_eq!(ivs.len(), 26);
     // --- interval operations
